@@ -132,11 +132,14 @@ def _mate(prot, npar):
     return f
 
 
-def _problem(n, k):
+def _problem(n, k, nobj=1):
     import pybrops.breed.prot.sel.prob.trans as T
     from pybrops.breed.prot.sel.prob.EstimatedBreedingValueSelectionProblem import EstimatedBreedingValueSubsetSelectionProblem as C
-    return C(ebv=numpy.array([[0.5], [2.0], [1.0], [1.5]][:n]), ndecn=k, decn_space=numpy.arange(n), decn_space_lower=numpy.repeat(0, k), decn_space_upper=numpy.repeat(n - 1, k),
-             nobj=1, obj_wt=numpy.array([1.0]), obj_trans=T.trans_sum)
+    if nobj == 1:
+        return C(ebv=numpy.array([[0.5], [2.0], [1.0], [1.5]][:n]), ndecn=k, decn_space=numpy.arange(n), decn_space_lower=numpy.repeat(0, k), decn_space_upper=numpy.repeat(n - 1, k),
+                 nobj=1, obj_wt=numpy.array([1.0]), obj_trans=T.trans_sum)
+    return C(ebv=numpy.array([[0.5, 1.0], [2.0, 0.25], [1.0, 3.0], [1.5, 0.5]][:n]), ndecn=k, decn_space=numpy.arange(n), decn_space_lower=numpy.repeat(0, k),
+             decn_space_upper=numpy.repeat(n - 1, k), nobj=2, obj_wt=numpy.array([1.0, 1.0]))
 
 
 def c_hillclimb(R, sy):
@@ -180,7 +183,7 @@ def _ga(cls):
             kw = dict(ngen=2, pop_size=4)
             if R is not None:
                 kw["rng"] = R
-            s = getattr(mod, cls)(**kw).minimize(_problem(4, 2))
+            s = getattr(mod, cls)(**kw).minimize(_problem(4, 2, nobj=(2 if cls.startswith("NSGA") else 1)))
         finally:
             mod.minimize = saved
         return [s.soln_decn]
@@ -604,7 +607,7 @@ def obligations(tier):
     pairs = [["spawn", "tiled"], ["wrappers", "spawn"], ["twowaydh", "tiled"], ["sus", "wrappers"]]
     if tier == "thorough":
         base = ["spawn", "wrappers", "tiled", "sus", "twoway", "cfg_subset", "hillclimb", "ga"]
-        heavy = {"cfg_subset", "ga", "twoway"}       # two path-heavy components in one program exceed the budget
+        heavy = {"cfg_subset", "ga", "twoway", "tiled"}       # two path-heavy components in one program exceed the budget
         pairs = [[a, b] for a in base for b in base if a != b and not ({a, b} <= heavy and "cfg_subset" in (a, b))]
         pairs += [["spawn", "twoway", "wrappers"], ["tiled", "spawn", "sus"], ["ga", "spawn", "tiled"], ["wrappers", "hillclimb", "spawn"]]
     for p in pairs:
